@@ -244,6 +244,18 @@ def run_cfg(ctx, p, cfg):
                 any(x[0] == "call" and x[1] == site.callee for i_ in its for x in walk(i_[2][0]))
             src_ok = bool(its) and (from_result or plain_list)
             r.require(src_ok, "handler-gets-each-error", fn=ll, site=h.at, detail="handler argument is the iterator item of the returned error vector: %s" % show(arg, 7))
+            # .. and nothing but "there are errors" and "there is another one" decides whether the handler runs
+            extra = []
+            for sb_, si_, al_ in ll.conditions(h.block):
+                d_ = strip(si_.discr)
+                inner_ = strip(d_[1]) if d_[0] == "discr" else d_
+                from_delivery = any(x[0] == "call" and x[1] == site.callee for x in walk(inner_))
+                from_iter = any(x[0] == "call" and x[1] == NEXT for x in walk(inner_))
+                is_empty = inner_[0] == "call" and inner_[1].rsplit("::", 1)[-1] in ("is_empty", "is_err", "is_ok", "len")
+                if not (from_delivery or from_iter or is_empty):
+                    extra.append(show(si_.discr, 4))
+            r.require(not extra, "handler-not-otherwise-conditional", fn=ll, site=h.at, detail="conditions on the handler call besides the error list and its iterator: %s" % extra,
+                      fail_detail="whether the handler is called also depends on %s: an error can go unreported (e.g. behind a lock that a panicking handler poisoned)" % extra)
             nb = [c.block for c in ll.calls(NEXT)]
             r.require(len(nb) == 1 and h.block not in ll.reach(h.block, avoid=set(nb)), "one-call-per-item", fn=ll,
                       detail="the handler call is re-entered only through the iterator step")
